@@ -8,8 +8,9 @@ import jets as J
 PID = 'C02'
 STATS = G.STATS
 PARTIAL = [
-    "curves, every order: proved (curve_derivatives_are_true_derivatives). The surface case, the list models of A4.2 / A4.4 and the A2.3 table (spec-level model) are covered by correspondence with the model and by the exact jet oracle",
-    "unit length of normalised tangents / normals is a floating-point statement (sqrt); checked in the oracle to 1e-12 only",
+    "proved: curves, every order (curve_derivatives_are_true_derivatives); surfaces, every mixed order as partial derivatives of the bivariate span polynomial in Mathlib's F[X][Y] (surface_derivatives_are_true_mixed_derivatives; with SurfaceEvaluator2 only k+l <= order is computed, the rest is left zero); the list models of A4.2 and A4.4 solve the (bivariate) Leibniz system, whose solution is unique; A2.3 transcribed statement by statement (basisFunsDersA23, stream bders23) equals the specification table basisDers = derivatives of the basis polynomials, and does not divide by zero under the span guard; A3.2 as a sum over that table is the true derivative",
+    "not proved: that the quotient A/w of two polynomials has the derivatives returned by A4.2/A4.4 is stated through the Leibniz system and its uniqueness, not through a derivative of rational functions; the surface table model surfaceDersAt is the tensor combination of two A2.3 tables (A3.6 as a formula) - the loop structure of SurfaceEvaluator.derivatives / SurfaceEvaluator2 (A3.7/A3.8 control-point tables) and the hodograph constructors derivative_curve / derivative_surface are covered by the exact correspondence and the exact jet oracle only",
+    "tangent / normal: orthogonality of the cross product to both first-derivative vectors and squared length 1 of v/mag whenever mag*mag = |v|^2 are proved for the models of vector_cross / vector_normalize; the floating-point sqrt and the 18-decimals rounding of vector_normalize are outside (checked in the oracle to 1e-12)",
 ]
 
 
@@ -33,6 +34,16 @@ def gen(rng, tier):
             G.count('order', order); G.count('evaluator', 'surf-alt' if alt else 'surf-default')
             line = "sders %s %d %s %s %s %d" % ('1' if d['rat'] else '0', 1 if alt else 0, S.args(d)[2:], fr(u), fr(v), order)
             out.append(Case('sders-alt' if alt else 'sders', line, dict(shape=d, u=u, v=v, order=order, alt=alt)))
+    # A2.3 literally transcribed (model `basisFunsDersA23`) against helpers.basis_function_ders
+    for _ in range(120 if tier == 'quick' else 2000):
+        p = rng.randint(1, 7 if tier == 'quick' else 9)
+        kv, n = G.knots(rng, p, clamped=rng.random() < .8)
+        u = G.param(rng, kv, p, n)
+        k = G.span_of(kv, p, n, u)
+        order = rng.randint(0, p) if rng.random() < .93 else p + rng.randint(1, 2)   # above the degree: IndexError
+        G.count('a23-order', 'above' if order > p else order)
+        out.append(Case('bders23', "bders23 %d %s %d %s %d" % (p, show_list(kv), k, fr(u), order),
+                        dict(p=p, n=n, kv=kv, u=u, k=k, order=order)))
     # hodograph constructors, tangent, normal: oracle only (no model line)
     for _ in range(40 if tier == 'quick' else 500):
         if rng.random() < .5:
@@ -59,6 +70,10 @@ def _obj(c):
 
 
 def impl(c):
+    if c.kind == 'bders23':
+        from geomdl import helpers
+        d = c.data
+        return show_pts(helpers.basis_function_ders(d['p'], qs(d['kv']), d['k'], q(d['u']), d['order']))
     o = _obj(c)
     if c.kind.startswith('cders'):
         return show_pts(o.derivatives(q(c.data['u']), c.data['order']))
@@ -84,8 +99,52 @@ def _map(d, hd, params):
     return res
 
 
+def _basis_poly_ders(kv, p, k, u, order):
+    """exact derivatives of the p+1 basis functions active on span k: Cox-de Boor recursion on coefficient
+    lists of the polynomial pieces on [kv[k], kv[k+1]), differentiated symbolically"""
+    def padd(a, b):
+        n = max(len(a), len(b)); a = a + [F(0)] * (n - len(a)); b = b + [F(0)] * (n - len(b))
+        return [x + y for x, y in zip(a, b)]
+
+    def pmul_lin(a, c0, c1):            # a(x) * (c0 + c1 x)
+        r = [F(0)] * (len(a) + 1)
+        for i, x in enumerate(a):
+            r[i] += x * c0; r[i + 1] += x * c1
+        return r
+    N = {i: ([F(1)] if i == k else [F(0)]) for i in range(k - p, k + p + 1)}
+    for q_ in range(1, p + 1):
+        M = {}
+        for i in range(k - p, k + p + 1 - q_):
+            acc = [F(0)]
+            d1 = kv[i + q_] - kv[i]
+            if d1 != 0:
+                acc = padd(acc, pmul_lin(N[i], -kv[i] / d1, 1 / d1))
+            d2 = kv[i + q_ + 1] - kv[i + 1]
+            if d2 != 0:
+                acc = padd(acc, pmul_lin(N[i + 1], kv[i + q_ + 1] / d2, -1 / d2))
+            M[i] = acc
+        N = M
+    rows = []
+    polys = [N[k - p + r] for r in range(p + 1)]
+    for _ in range(order + 1):
+        rows.append([sum((c * u ** e for e, c in enumerate(pl)), F(0)) for pl in polys])
+        polys = [[c * e for e, c in enumerate(pl)][1:] or [F(0)] for pl in polys]
+    return rows
+
+
 def oracle(c):
     from geomdl import operations, evaluators
+    if c.kind == 'bders23':
+        from geomdl import helpers
+        d = c.data
+        if d['order'] > d['p']:
+            return None
+        got = helpers.basis_function_ders(d['p'], qs(d['kv']), d['k'], q(d['u']), d['order'])
+        want = _basis_poly_ders(d['kv'], d['p'], d['k'], d['u'], d['order'])
+        if [list(r) for r in got] != want:
+            return "basis_function_ders(%d, .., %d, %s, %d) differs from the exact derivatives of the basis polynomials" % (
+                d['p'], d['k'], fr(d['u']), d['order'])
+        return None
     d = c.data['shape']
     if c.kind.startswith('cders'):
         o = _obj(c)
